@@ -13,3 +13,7 @@ package fsutil
 //@   ensures spec: result == joinSpec(baseFilePath, cleanSpec(rootedOf(rawUrlPath)))
 //@   ensures contain: within(baseFilePath, result)
 //@   ensures plain: dotFree(rootedOf(rawUrlPath)) ==> result == joinSpec(baseFilePath, rootedOf(rawUrlPath))
+
+// used by config.parseConfigJson (safety only)
+//@ func ExpandHomeDir
+//@   modifies nothing
